@@ -45,6 +45,10 @@ INFO = {
         'where the property wording does not decide (operator flag after a membership revoke, rooms omitted by a '
         'room list, own join adds-or-replaces the user list, position of a re-added ticker) both outcomes pass',
         'the harness recorder is emptied after every event so that it does not keep User objects alive',
+        'the pre-run heap is parked with gc.freeze() for the duration of a run, so the explicit gc steps traverse '
+        'only objects created by the run (a full collection costs ~25 ms, twice the run)',
+        'a chat/ticker/membership notification from a sender that is not blocked for its kind must produce its '
+        'event (a missing event is reported as C19.event_identity what=no_event); duplicates are not judged',
         'block kinds: RoomChatMessage and PublicChatMessage <-> ROOM_MESSAGES, PrivateChatMessage <-> PRIVATE_MESSAGES',
     ],
 }
